@@ -756,7 +756,7 @@ fn boundary(ctx: &Ctx, pages: usize, page: usize, slack: usize, depth2: bool) {
 
 pub fn run(tier: Tier, replay: Option<String>) -> i32 {
     let ctx = crate::new_ctx("C09", tier, "model_checking", &replay);
-    ctx.set_rule("E1: BFS to an empty frontier over every public operation (full argument ranges 0..=bytes+2p plus values around isize::MAX/usize::MAX) on tiny AtomicBitmaps (<= 6 pages, page size 1..3, byte sizes +-1 around page multiples); state = complete concrete state (byte_size, page_size, set of dirty pages as decoded from the raw words); every transition is executed on the real bitmap, rebuilt by replaying the shortest history, and every observable (len, byte_size, is_bit_set, is_addr_set, dirty_at, slices, nested slices, raw words) is compared with a BTreeSet model. Plus all histories of 3 (thorough 4) operations over a reduced alphabet (single-page and past-the-end marks, enlarge, harvest, resets, clone, clone_from into larger dirty bitmaps) WITHOUT merging states, so that state kept beside the bits cannot hide behind the state key. Plus geometries at the top of the size range (byte sizes within a page of usize::MAX, page sizes up to usize::MAX; built directly and by enlarge) against 128-bit arithmetic. Plus depth-1/2 sweeps on word-boundary configurations (63..129 pages, page sizes 1,3,5,7,4096,4097).");
+    ctx.set_rule("E1: BFS to an empty frontier over every public operation (full argument ranges 0..=bytes+2p plus values around isize::MAX/usize::MAX) on tiny AtomicBitmaps (<= 6 pages, page size 1..3, byte sizes +-1 around page multiples); state = complete concrete state (byte_size, page_size, set of dirty pages as decoded from the raw words); every transition is executed on the real bitmap, rebuilt by replaying the shortest history, and every observable (len, byte_size, is_bit_set, is_addr_set, dirty_at, slices, nested slices, raw words) is compared with a BTreeSet model. Plus all histories of 3 (thorough 4) operations over a reduced alphabet (single-page and past-the-end marks, enlarge, harvest, resets, clone, clone_from into larger dirty bitmaps) WITHOUT merging states, so that state kept beside the bits cannot hide behind the state key. Plus geometries at the top of the size range (byte sizes within a page of usize::MAX, page sizes up to usize::MAX; built directly and by enlarge) against 128-bit arithmetic. On these geometries page numbers at and beyond the page count, including those whose first byte address does not fit in a usize, are marked and cleared and must change nothing. Plus depth-1/2 sweeps on word-boundary configurations (63..129 pages, page sizes 1,3,5,7,4096,4097).");
     ctx.assume("successors with more than 6 pages (after enlarge) are checked but not expanded further in the closure; the boundary sweeps cover large bitmaps");
     if let Some(r) = ctx.replay_of.clone() {
         let c = &r["case"];
